@@ -248,8 +248,10 @@ func runC09(tier string) int {
 			want = append([]string{}, norm...)
 		}
 		joined := strings.Join(want, "\n")
+		termAppended := false
 		if term != "" && !strings.HasSuffix(joined, term) {
 			want[len(want)-1] += term
+			termAppended = true
 		}
 		dirName := "string"
 		if typ != "" {
@@ -270,6 +272,37 @@ func runC09(tier string) int {
 				if got[i][1] != want[i] {
 					problem = fmt.Sprintf("line %d payload %q, want %q", i, got[i][1], want[i])
 					break
+				}
+			}
+		}
+		if formatted && problem == "" {
+			// independent of FormatText: format() only decides where lines break. Every directive but the last ends in a
+			// line-break escape, and with the breaks read as blanks the words are the words of the content, in order.
+			var sb strings.Builder
+			for i, g := range got {
+				line := g[1]
+				if i < len(got)-1 {
+					if !strings.HasSuffix(line, `\n`) && !strings.HasSuffix(line, `\l`) && !strings.HasSuffix(line, `\p`) {
+						problem = fmt.Sprintf("formatted line %d (%q) does not end in a line break although the text goes on", i, line)
+						break
+					}
+				}
+				sb.WriteString(line)
+			}
+			if problem == "" {
+				words := func(t string) string {
+					for _, br := range []string{`\n`, `\l`, `\p`, "\n"} {
+						t = strings.ReplaceAll(t, br, " ")
+					}
+					return strings.Join(strings.Fields(t), " ")
+				}
+				// (a terminator that was appended - the formatted text did not end in it - is taken off again)
+				gotText, wantText := sb.String(), strings.Join(norm, " ")
+				if termAppended {
+					gotText = strings.TrimSuffix(gotText, term)
+				}
+				if a, b := words(gotText), words(wantText); a != b {
+					problem = fmt.Sprintf("formatted words %q, words of the content %q", a, b)
 				}
 			}
 		}
